@@ -1,7 +1,9 @@
 #!/bin/bash
-# tools/mk_seed_wt.sh C01 ... : scratch worktrees of /repo HEAD for mutation agents (outside /repo and /verif)
+# tools/mk_seed_wt.sh [-p prefix] C01 ... : scratch worktrees of /repo HEAD for mutation agents (outside /repo and /verif)
+prefix=seed
+if [ "$1" = "-p" ]; then prefix=$2; shift 2; fi
 for id in "$@"; do
-  d=/tmp/seed_$id
+  d=/tmp/${prefix}_$id
   git -C /repo worktree remove --force $d 2>/dev/null
   rm -rf $d ${d}_target ${d}_out
   git -C /repo worktree add -q --detach $d HEAD
